@@ -635,7 +635,11 @@ func (vc *VC) contractCtx(st, old *State, ct *Contract, fn *ssa.Function, sig *t
 		if i >= len(args) {
 			break
 		}
-		ev := EV{V: args[i], T: tys[i]}
+		av := args[i]
+		if av.K == VAddr && av.A != nil && av.A.K == AMem && av.A.Ref != nil {
+			av = scalar(av.A.Ref) // a pointer to a non-struct heap cell: its reference
+		}
+		ev := EV{V: av, T: tys[i]}
 		if names[i] != "" && names[i] != "_" {
 			c.names[names[i]] = ev
 		}
